@@ -105,6 +105,10 @@ def gen_cases(tier):
             yield list(seq)
     for seq in itertools.permutations(CORE, k + 1):
         yield list(seq)
+    expressible = [i for i, f in CSV_FORM.items() if f]
+    for n in range(1, len(expressible) + 1):
+        for seq in itertools.permutations(expressible, n):
+            yield {"csv": list(seq)}
 
 
 @functools.lru_cache(maxsize=None)
@@ -135,7 +139,47 @@ def results(seq):
     return text, a, b, c
 
 
+# ---- legacy CSV rule files in most_specific mode: the rules of the alphabet that a CSV row can express
+CSV_FORM = {0: "UBER", 4: "UBER[amount>0]", 7: "UBER EATS", 11: "UB", 13: "U", 3: None}
+
+
+def check_csv(case):
+    """The same ranking for a legacy CSV rule file loaded in most_specific mode (every permutation of the expressible rules)."""
+    from tally.merchant_utils import get_all_rules, get_transforms
+    seq = tuple(case["csv"])
+    rows = [{"pattern": CSV_FORM[i], "merchant": RULES[i]["name"], "category": RULES[i]["category"], "subcategory": RULES[i].get("subcategory", ""), "tags": ""}
+            for i in seq]
+    text = R.render_csv(rows)
+    path = R.write_scratch("merchant_categories.csv", text)
+    H.reset_state()
+    rules = get_all_rules(path, match_mode="most_specific")
+    transforms = get_transforms(path, match_mode="most_specific")
+    tr = [truth(i) for i in seq]
+    viol, evals, nontrivial = [], 0, False
+    for ti, t in enumerate(TXNS):
+        evals += 1
+        got = R.normalize_result(rules, transforms, t)
+        cands = [(pos, i) for pos, i in enumerate(seq) if tr[pos][ti]]
+        if len(cands) >= 2:
+            nontrivial = True
+        if not cands:
+            if got["category"] != "Unknown":
+                viol.append({"kind": "categorised-without-true-categorising-rule", "detail": {"entry": "csv most_specific", "txn": t, "got": got, "file": text}})
+            continue
+        best = max(cands, key=lambda pi: (KEYS[pi[1]], -pi[0]))
+        subs = [(pos, i) for pos, i in cands if RULES[i].get("subcategory")]
+        exp_sub = RULES[max(subs, key=lambda pi: (KEYS[pi[1]], -pi[0]))[1]]["subcategory"] if subs else ""
+        if got["category"] != RULES[best[1]]["category"]:
+            viol.append({"kind": "wrong-category-winner", "detail": {"entry": "csv most_specific", "txn": t, "expected_rule": RULES[best[1]]["name"], "got": got, "file": text}})
+        elif got["subcategory"] != exp_sub:
+            viol.append({"kind": "wrong-subcategory-winner", "detail": {"entry": "csv most_specific", "txn": t, "expected_subcategory": exp_sub, "got": got, "file": text}})
+    H.reset_state()
+    return {"evals": evals, "nontrivial": 1 if nontrivial else 0, "outcomes": ["csv"], "violations": viol[:10], "sample_repr": {"file": text}}
+
+
 def check_case(case):
+    if isinstance(case, dict):
+        return check_csv(case)
     seq = tuple(case)
     text, a, b, c = results(seq)
     tr = [truth(i) for i in seq]
